@@ -50,6 +50,8 @@ enum { CB_ONE, CB_ZERO, CB_UNSPEC };
 #define EM_DOM     8
 #define EM_PROTO   16
 #define EM_SYS     32		/* any non-zero system errno */
+#define EM_LATE    64		/* the failure comes late in the call's work
+				   (I/O): the object need only stay usable */
 #define FL_MUTOK   1		/* a failing call may change the destination */
 #define FL_L0FAIL  2		/* the baseline call itself must fail */
 #define FL_L0ANY   4		/* nothing asserted on the baseline outcome */
